@@ -7,8 +7,16 @@ perturbations (one in quick, two in thorough) x seven trusted pools as states an
 x 2 endpoints in each; every state is exported with the verdict sets.  harness/c02 materializes the hierarchy with
 std crypto/x509 (two epochs, mixed key algorithms) and replays the cases into ctfe.ValidateChain /
 IsPrecertificate and into add-chain / add-pre-chain of configured instances.
+
+History layer (spec/ctfe/ChainAdmissionLog.tla): a log serving many requests while the clock advances; the law is that
+admission is a FUNCTION of the request, the configuration at set-up and the clock at the instant of that request
+(JudgedAlone, NothingRemembered, ConfigFixed, Repeatable, WhenShape).  Checked exhaustively on a small instance, refuted
+by TLC on two negative instances (a log that pins the clock of its first request, a verdict memo keyed by leaf), and
+bound to the code by random walks (MCChainAdmissionLog.tla) replayed under virtual time (testing/synctest, go1.26,
+-race): in order, reversed at the final instant, and all at once on fresh logs.
 """
 import json
+from concurrent.futures import ThreadPoolExecutor
 
 from vlib import Infra
 
@@ -23,8 +31,13 @@ ASSUME = [
     "certificate that is itself in the trusted pool is admitted alone and refused when followed by others - recorded "
     "behaviour of the code where the text would admit), TrustedLastEndsPath (both the submission itself and the "
     "submission plus a trusted issuer are allowed paths when the last certificate is trusted)",
-    "an instance reads the system clock for expired / unexpired: through HTTP only 'now before / after every NotAfter' "
-    "is exercised (hierarchies dated 2120 / 1995); 'now' at the boundary is exercised on ValidateChain, which takes the time as a parameter",
+    "an instance reads the system clock for expired / unexpired: in the case replay only 'now before / after every "
+    "NotAfter' is exercised through HTTP (hierarchies dated 2120 / 1995) and 'now' at the boundary on ValidateChain, which "
+    "takes the time as a parameter; the history layer runs instances and ValidateChain (options without a time) on the "
+    "virtual clock of a testing/synctest bubble, one model instant = one second (sub-second positions of 'now' are not exercised)",
+    "NAMED CLAUSE PinnedTime: options handed to ValidateChain may carry a time and expiry is then judged at that instant; "
+    "a log's configuration has no such field, every request to a log is judged at the instant of that request",
+    "histories are random walks (not exhaustive): three logs, 18 entries, chains = base chains and their single perturbations",
     "forbidden-extension and 'Any' EKU configurations are reachable through an instance only (NewCertValidationOpts has no parameter for them)",
 ]
 
@@ -50,22 +63,97 @@ def model(ctx, cfg):
     return cases, tables
 
 
+def log_model(ctx):
+    """The history specification: laws on the small exhaustive instance, the two negative instances refuted."""
+    def one(job):
+        cfg, expect = job
+        return ctx.tlc("ctfe", "MCChainAdmissionLog", cfg, workers=4, timeout=1500, expect_violation=expect, count=not expect)
+    jobs = [(ctx.pick("ChainAdmissionLogSmall.cfg", "ChainAdmissionLogBig.cfg"), False), ("ChainAdmissionLogPinFirst.cfg", True), ("ChainAdmissionLogMemo.cfg", True)]
+    with ThreadPoolExecutor(max_workers=3) as pool:
+        res = list(pool.map(one, jobs))
+    for (cfg, expect), r in zip(jobs, res):
+        if expect and r.violated != "JudgedAlone":
+            raise Infra("%s: the negative instance must violate JudgedAlone, TLC says %r" % (cfg, r.violated))
+    return res[0].distinct
+
+
+def walks_of(ctx, n):
+    steps = 18
+    r = ctx.tlc("ctfe", "MCChainAdmissionLog", "ChainAdmissionLogSim.cfg", simulate=n, depth=steps + 4, count=False, timeout=1500)
+    walks = r.records.get("WALK", [])
+    if len(walks) != n:
+        raise Infra("expected %d walks, got %d" % (n, len(walks)))
+    serves = [s for w in walks for s in w["steps"] if s["op"] == "serve"]
+    routes = set(s["route"] for s in serves if s["verdict"])
+    # a walk exposes a log that judges at the instant of its first request (instead of the instant of the request)
+    exposing = flips = 0
+    for w in walks:
+        first, seen, hit = {}, {}, False
+        for s in w["steps"]:
+            if s["op"] != "serve":
+                continue
+            k = (s["log"], tuple(s["ch"]), s["route"])
+            if k in seen and seen[k] != s["verdict"]:
+                flips += 1
+            seen[k] = s["verdict"]
+            if s["route"] != "validate":
+                first.setdefault(s["log"], s["at"])
+                hit = hit or ((first[s["log"]] in s["when"]) != s["verdict"])
+        exposing += hit
+    pinned = sum(1 for w in walks if any(l["pin"] >= 0 for l in w["logs"]))
+    if routes != {"add-chain", "add-pre-chain", "validate"} or flips == 0 or exposing < n // 20 or pinned == 0 \
+            or any(len(w["steps"]) != steps for w in walks):
+        raise Infra("vacuous histories: admitting routes %s, %d verdict flips, %d walks whose verdicts follow the clock after the "
+                    "first request, %d with a pinned configuration" % (sorted(routes), flips, exposing, pinned))
+    ctx.log("histories: %d walks, %d requests (%d admitted), %d verdict flips, %d walks expose a pinned first clock" % (
+        n, len(serves), sum(s["verdict"] for s in serves), flips, exposing))
+    return walks
+
+
+def history(ctx, walks, tpath, only=0):
+    wpath = ctx.write_ndjson("walks.ndjson", walks)
+    env = {"VERIF_TABLES": tpath, "VERIF_WALKS": wpath, "VERIF_CASES": ""}
+    if only:
+        env["VERIF_ONLY_STEP"] = only
+    ctx.go_test("c02", run="TestHistory$", env=env, toolchain="go1.26", race=True, timeout=3300, name="c02-history")
+
+
 def run(ctx, replay=None):
     ctx.assumptions += ASSUME
+    data = {}
     if replay:
         with open(replay) as f:
-            rp = json.load(f)
-        data = rp["replay"]
+            data = json.load(f).get("replay") or {}
+    if "walk" in data or "case" in data:
         _, tables = model(ctx, "MCChainAdmission.cfg")
         tpath = ctx.write_ndjson("tables.json", [tables])
+        if "walk" in data:
+            # one history; a difference in the in-order phase is asserted at that request only
+            history(ctx, [data["walk"]], tpath, only=data.get("step", 0) if data.get("phase") == "in-order" else 0)
+            return
         cpath = ctx.write_ndjson("replay.ndjson", [data["case"]])
         ctx.go_test("c02", run="TestReplay$", env={"VERIF_TABLES": tpath, "VERIF_CASES": cpath,
                                                     "VERIF_ONLY_OPT": data.get("opt", 1)})
         return
-    cases, tables = model(ctx, ctx.pick("MCChainAdmission.cfg", "MCChainAdmission2.cfg"))
+    # (a replay file without a case or a walk - a race report, a modified pool - is replayed by the whole run)
+    with ThreadPoolExecutor(max_workers=2) as pool:
+        fm = pool.submit(model, ctx, ctx.pick("MCChainAdmission.cfg", "MCChainAdmission2.cfg"))
+        fl = pool.submit(log_model, ctx)
+        cases, tables = fm.result()
+        small = fl.result()
+    walks = walks_of(ctx, ctx.pick(300, 3000))
     tpath = ctx.write_ndjson("tables.json", [tables])
     cpath = ctx.write_ndjson("cases.ndjson", cases)
-    ctx.go_test("c02", run="TestReplay$", env={"VERIF_TABLES": tpath, "VERIF_CASES": cpath}, timeout=3300)
+    with ThreadPoolExecutor(max_workers=2) as pool:
+        fr = pool.submit(ctx.go_test, "c02", run="TestReplay$", env={"VERIF_TABLES": tpath, "VERIF_CASES": cpath}, timeout=3300)
+        fh = pool.submit(history, ctx, walks, tpath)
+        fr.result()
+        fh.result()
+    # the two harness runs finish in any order: report the differences of the case replay first, then those of the histories
+    ctx.violations.sort(key=lambda v: v["fingerprint"].startswith(("history:", "purity:", "race:")))
     ctx.exhaustive = {"domain": "28 base chains (+7 submitted unperturbed) x %s x 7 trusted pools; 2160 option combinations x 2 endpoints "
                                 "evaluated by TLC in every state" % ctx.pick("every single perturbation", "one or two stacked perturbations"),
-                      "states": len(cases)}
+                      "states": len(cases),
+                      "history": "%s: %d states (two logs x %s configurations, five chains, clock 3..6), all laws; %d random "
+                                 "walks replayed" % (ctx.pick("ChainAdmissionLogSmall.cfg", "ChainAdmissionLogBig.cfg"), small,
+                                                     ctx.pick("five", "sixteen"), len(walks))}
